@@ -7,6 +7,7 @@ import KalignModel.Driver.Misc
 import KalignModel.Driver.Bpm
 import KalignModel.Driver.Kmeans
 import KalignModel.Driver.Pipeline
+import KalignModel.Driver.PipelineFile
 /-!
 Line-protocol driver: one operation per input line, one result line per operation.
 Only executable model definitions are imported here (no `Props`, no Mathlib), so a failing proof
@@ -14,7 +15,7 @@ never prevents the model from running.  Each slice of the model contributes an `
 -/
 namespace Kalign.Driver
 
-def tables : OpTable := weaveOps ++ paramOps ++ dpOps ++ ioOps ++ miscOps ++ bpmOps ++ kmeansOps ++ pipelineOps
+def tables : OpTable := weaveOps ++ paramOps ++ dpOps ++ ioOps ++ miscOps ++ bpmOps ++ kmeansOps ++ pipelineOps ++ pipeFileOps
 
 def step (line : String) : String :=
   match (line.trimAscii.toString.splitOn " ").filter (· ≠ "") with
